@@ -319,6 +319,10 @@ def variants():
       out.append((qual, mk, "masked"))
       both = dict(spec, geom=dict(spec["geom"], groups=2, _mask=W("mask")))
       out.append((qual, both, "groups=2,masked"))
+    if qual.endswith(".QConv1D"):
+      cz = dict(spec, geom=dict(spec["geom"], padding="causal"),
+                expect=dict(spec["expect"], padding="causal"))
+      out.append((qual, cz, "causal"))
     if qual.endswith(".QGRUCell"):
       ra = dict(spec, geom=dict(reset_after=True))
       out.append((qual, ra, "reset_after"))
@@ -413,7 +417,40 @@ def rule_layers(rep, repo, tier="quick"):
                   loc=loc, instance=cfg)
         for op in ops[:1]:
           attrs = dict(op[2])
+          if vname == "causal":
+            # causal padding may be delegated to the backend op or applied
+            # to the inputs first; either way the effective left padding is
+            # dilation * (kernel - 1) and nothing is padded on the right
+            dil = spec["geom"]["dilation_rate"][0]
+            ks = spec["geom"]["kernel_size"][0]
+            want_left = dil * (ks - 1)
+            xin = op[3][0] if op[3] else None
+            left = right = None
+            if attrs.get("padding") == "causal" and xin == ("sym", "inputs"):
+              left, right = want_left, 0
+            elif attrs.get("padding") == "valid" and isinstance(
+                xin, tuple) and xin[0] == "app" and xin[1].endswith("pad") \
+                and xin[3] and xin[3][0] == ("sym", "inputs"):
+              pads = [v_ for k_, v_ in xin[2] if k_ in ("#1", "paddings")]
+              try:
+                left, right = [int(p_) for p_ in pads[0][1]]
+                others = [int(p_) for row in (pads[0][0], pads[0][2])
+                          for p_ in row]
+                if any(others):
+                  left = None
+              except (IndexError, TypeError, ValueError):
+                left = right = None
+            rep.check(left == want_left and right == 0, "R3", unit,
+                      "causal-padding",
+                      "%s: the convolution sees %s (padding=%r); causal "
+                      "padding with kernel %d and dilation %d must put %d "
+                      "steps before the sequence and none after it" %
+                      (cfg, show_term(xin)[:120] if isinstance(xin, tuple)
+                       else xin, attrs.get("padding"), ks, dil, want_left),
+                      loc=loc, instance=cfg)
           for k, v in sorted(spec["expect"].items()):
+            if vname == "causal" and k == "padding":
+              continue
             rep.check(attrs.get(k, "<absent>") == v, "R3", unit,
                       "geometry-not-forwarded:" + k,
                       "%s: %s receives %s=%r, the layer's own value is %r" %
